@@ -78,6 +78,14 @@ func TestVerif_C04(t *testing.T) {
 		settings = append(append([]string{}, settings...), "0", "3")
 	}
 	watchdog := time.Duration(rec.N(600, 3000)) * time.Second
+	// the worlds are built once, here; the variable under test is read when a shard is
+	// loaded, not when it is written
+	worlds := filepath.Join(rec.Work, "c04worlds")
+	if err := c04BuildWorlds(rec, worlds); err != nil {
+		rec.Violation("harness/build", err.Error(), nil)
+		return
+	}
+	defer os.RemoveAll(worlds)
 	type out struct {
 		setting string
 		path    string
@@ -90,7 +98,7 @@ func TestVerif_C04(t *testing.T) {
 		wg.Add(1)
 		go func(i int, s string) {
 			defer wg.Done()
-			env := []string{"C04_ANSWERS=" + outs[i].path, "GOMAXPROCS=4"}
+			env := []string{"C04_ANSWERS=" + outs[i].path, "C04_WORLDS=" + worlds, "GOMAXPROCS=4"}
 			if s != "unset" {
 				env = append(env, "ZOEKT_DOCMATCHTREE_CACHE="+s)
 			}
@@ -131,9 +139,8 @@ func TestVerif_C04(t *testing.T) {
 		if a == nil || s == "unset" {
 			continue
 		}
-		if len(a.Fresh) != len(base.Fresh) {
-			rec.Violation("harness/case lists differ", fmt.Sprintf("cache=%s answered %d searches, unset %d", s, len(a.Fresh), len(base.Fresh)), nil)
-		}
+		// (a history stops at its first divergence, so a child with violations holds
+		// fewer answers; only the common ones are compared)
 		keys := make([]string, 0, len(base.Fresh))
 		for k := range base.Fresh {
 			keys = append(keys, k)
@@ -173,12 +180,11 @@ type c04World struct {
 	metas  [][2]string // pool of (field, value regexp source)
 }
 
-func (w *c04World) close() { os.RemoveAll(w.dir) }
 
 var c04MetaValues = []string{"^a$", "a", "^ab", "b", "^$", "c$", "abc|^b$", "^b"}
 var c04MetaFields = []string{"team", "k", "x"}
 
-func newC04World(rec *kit.Rec, h int) (*c04World, error) {
+func newC04World(rec *kit.Rec, h int, root string, build bool) (*c04World, error) {
 	g := kit.NewGen(rec.Rand(uint64(h) + 4_000_000))
 	g.SubRepos = true
 	c := &kit.Corpus{}
@@ -267,7 +273,21 @@ func newC04World(rec *kit.Rec, h int) (*c04World, error) {
 	// one predicate that folds away (holds for all or none), for contrast
 	w.metas = append(w.metas, [2]string{cands[len(cands)-1].f, cands[len(cands)-1].v})
 
-	w.dir = filepath.Join(rec.Work, fmt.Sprintf("c04w%d", h))
+	// root == "": model only. build: write the shards (parent); otherwise use what the
+	// parent wrote.
+	if root == "" {
+		return w, nil
+	}
+	w.dir = filepath.Join(root, fmt.Sprintf("w%d", h))
+	if !build {
+		if err := readJSON(filepath.Join(w.dir, "paths.json.verif"), &w.paths); err != nil {
+			return nil, err
+		}
+		if len(w.paths) != len(w.groups) {
+			return nil, fmt.Errorf("world %d: %d shards on disk, model has %d", h, len(w.paths), len(w.groups))
+		}
+		return w, nil
+	}
 	os.RemoveAll(w.dir)
 	if err := os.MkdirAll(w.dir, 0o755); err != nil {
 		return nil, err
@@ -278,7 +298,42 @@ func newC04World(rec *kit.Rec, h int) (*c04World, error) {
 		return nil, err
 	}
 	w.paths = paths
-	return w, nil
+	return w, writeJSON(filepath.Join(w.dir, "paths.json.verif"), paths)
+}
+
+func c04Sizes(rec *kit.Rec) (worlds, historiesPerWorld, concEvery int) {
+	return rec.N(8, 100), rec.N(5, 6), rec.N(2, 5)
+}
+
+// c04BuildWorlds writes every world's shards (in parallel: a shard builder costs
+// ~0.1 s of allocation, whatever the corpus size).
+func c04BuildWorlds(rec *kit.Rec, root string) error {
+	n, _, _ := c04Sizes(rec)
+	var mu sync.Mutex
+	var first error
+	var wg sync.WaitGroup
+	ch := make(chan int)
+	for k := 0; k < 8; k++ {
+		wg.Add(1)
+		go func() {
+			defer wg.Done()
+			for h := range ch {
+				if _, err := newC04World(rec, h, root, true); err != nil {
+					mu.Lock()
+					if first == nil {
+						first = fmt.Errorf("world %d: %w", h, err)
+					}
+					mu.Unlock()
+				}
+			}
+		}()
+	}
+	for h := 0; h < n; h++ {
+		ch <- h
+	}
+	close(ch)
+	wg.Wait()
+	return first
 }
 
 // survives: the predicate holds for some but not all live repositories of the
@@ -520,20 +575,27 @@ func c04Child(rec *kit.Rec, setting string) {
 		return
 	}
 	ans := &c04Answers{Setting: setting, Fresh: map[string]fp{}, Kind: map[string]string{}, Query: map[string]string{}}
-	nHist := rec.N(40, 600)
-	concEvery := rec.N(5, 6)
-	for h := 0; h < nHist; h++ {
-		kit.LogCase(map[string]any{"history": h})
-		w, err := newC04World(rec, h)
+	nWorlds, perWorld, concEvery := c04Sizes(rec)
+	root := os.Getenv("C04_WORLDS")
+	build := false
+	if root == "" { // run by hand, without the parent
+		root, build = filepath.Join(rec.Work, "c04worlds"), true
+	}
+	for wi := 0; wi < nWorlds; wi++ {
+		w, err := newC04World(rec, wi, root, build)
 		if err != nil {
-			rec.Violation("harness/build", err.Error(), nil)
+			rec.Violation("harness/world", err.Error(), nil)
 			continue
 		}
-		c04Sequential(rec, w, h, setting, ans)
-		if h%concEvery == 0 {
-			c04Concurrent(rec, w, h, setting, ans)
+		for k := 0; k < perWorld; k++ {
+			h := wi*perWorld + k
+			kit.LogCase(map[string]any{"world": wi, "history": h})
+			c04Sequential(rec, w, h, setting, ans)
 		}
-		w.close()
+		if wi%concEvery == 0 {
+			kit.LogCase(map[string]any{"world": wi, "concurrent": true})
+			c04Concurrent(rec, w, wi, setting, ans)
+		}
 	}
 	if p := os.Getenv("C04_ANSWERS"); p != "" {
 		if err := writeJSON(p, ans); err != nil {
